@@ -235,6 +235,15 @@ SHAPES = [
     {   # class-private names in a function defined in a class body
         "body": "class _K:\n    __bias = 5\n    def f(p):\n        y = __s__(1, p) + _K.__bias\n        return y\nf = _K.f\n",
         "names": ["p", "y"], "args": ["((1,), {})"]},
+    {   # a closure variable that only a variable annotation uses
+        "body": "def factory():\n    T = int\n    def f(p):\n        a: T = __s__(1, p) + 1\n        return a\n    return f\nf = factory()\n",
+        "names": ["p", "a"], "args": ["((1,), {})"]},
+    {   # a comprehension variable named like a global that the function reads; __debug__
+        "body": "LIMIT = 3\ndef f(p):\n    kept = [LIMIT + __s__(1, 0) for LIMIT in [p, p + 1]]\n    if __debug__:\n        y = LIMIT + kept[0]\n    return y\n",
+        "names": ["p", "kept", "y", "LIMIT"], "args": ["((1,), {})"]},
+    {   # functools.wraps of something that is not a Python function
+        "body": "import functools\n@functools.wraps(len)\ndef f(p):\n    n = len([p]) + __s__(1, p)\n    return n\n",
+        "names": ["p", "n"], "args": ["((1,), {})"]},
     {   # a with statement with several items, a lambda assigning, a match guard, a multi-line string
         "body": "def f(p):\n    with CM(1, p) as w1, CM(2, w1 + 1) as w2:\n        a = (lambda: (w1 := 99))() + w1\n    match [a, w2]:\n        case [b, c] if b > 1000:\n            r = 1\n        case [b, c]:\n            r = len(\"\"\"x\n    y\"\"\") + b + c\n    return r\n",
         "names": ["w1", "w2", "a", "b", "c", "r"], "args": ["((1,), {})", "((2000,), {})"]},
